@@ -128,7 +128,7 @@ def _is_none_atom(attr):
 
 @rule("TB2", "piece selection is start <= v < end, conditions and functions are built from the same list, nothing else yields NaN", floor=8)
 def tb2(ctx, R):
-    from .sym import Sym, show, alpha, same, select_path, contains, collect
+    from .sym import Sym, show, alpha, same, select_path, contains, collect, eval_cond
     from .region import region, cone
     prog = ctx.prog
     # --- Range.within_range, evaluated for the three kinds of range
@@ -318,6 +318,25 @@ def tb2(ctx, R):
                     inner = ("call", "numpy.square", (("binop", "-", (t, E(2))),), ())
                     want = sy._binop("*", E(0), ("call", "numpy.exp", (sy._binop("*", E(1), inner),), ()))
                     ok = fn[2] == want
+    cand_vals = [sel[1]] if (sel is not None and sel[1] is not None) else [v_ for g_, v_, _e in paths if v_ is not None and not any(
+        eval_cond(c_, oracle_exp) is False for c_ in g_)]
+    if not ok and got is None and cand_vals:
+        # positive evidence: the exponential of the type K term is part of the result but not under a selection of t >= 0
+        def exp_outside_selection(v, inside=False):
+            if not isinstance(v, tuple) or not v:
+                return False
+            if v[0] == "call" and v[1] in ("numpy.piecewise", "numpy.where", "numpy.select"):
+                inside = True
+            if v[0] == "call" and v[1] == "numpy.exp" and contains(v, lambda y: y == ("self", "_exponential_term")) and not inside:
+                return True
+            if v[0] == "fn":
+                return False
+            return any(exp_outside_selection(y, inside) for y in v if isinstance(y, tuple))
+        if any(exp_outside_selection(v_) for v_ in cand_vals):
+            R.violation("thermocouples.Thermocouple.celsius_to_mv::exponential term", f.where(), "the type K exponential term a0 * exp(a1 * (t - a2)**2) is added to the "
+                        "result without a selection of t >= 0 (no np.piecewise / np.where around it): in an array that holds temperatures on both sides of 0 degC it is "
+                        "also added below 0 degC, where ITS-90 has no such term")
+            return
     if not ok and got is None:
         R.unrecognised("thermocouples.Thermocouple.celsius_to_mv::exponential term", f.where(), "the type K exponential term was not found as a second np.piecewise added to the polynomial "
                        "(it may live in a helper object): its formula is not decided")
